@@ -135,6 +135,22 @@ def main(tier, seed, replay=None):
     q = tier == "quick"
     cases = [("gen", seed, i) for i in range(3000 if q else 50000)]
     cases += [("corpus", p, t) for p, t in gen_mutate.corpus() if "/invalid/" not in p and "/unresolved/" not in p]
+    # modules at the documented limits of the grammar (address depth 127, in the three places a reference can stand) and with
+    # every optional piece of punctuation
+    for n in (1, 2, 126, 127):
+        amp = "&" * n
+        cases.append(("corpus", "special/address_depth_%d_expression.pn" % n, "fn main()\n{\n\tvar y = %sx;\n}\n" % amp))
+        cases.append(("corpus", "special/address_depth_%d_target.pn" % n, "fn main()\n{\n\t%sx = 1;\n}\n" % amp))
+        cases.append(("corpus", "special/address_depth_%d_length.pn" % n, "fn main()\n{\n\tvar y = |%sx|;\n}\n" % amp))
+        cases.append(("corpus", "special/address_depth_%d_argument.pn" % n, "fn main()\n{\n\tf(1, %sx.a[2]);\n}\n" % amp))
+    for name, text in {
+        "trailing_commas": "fn f(a: i32, b: i32,) -> i32\n{\n\tvar t = [1, 2,];\n\tvar s = S { a: 1, b: 2, };\n\tg(a, b,);\n\treturn: h(a,)\n}\n"
+                           "struct S\n{\n\ta: i32,\n\tb: i32,\n}\n",
+        "no_trailing_commas": "fn f(a: i32, b: i32) -> i32\n{\n\tvar t = [1, 2];\n\tvar s = S { a: 1, b: 2 };\n\tg(a, b);\n\treturn: h(a)\n}\n"
+                              "struct S\n{\n\ta: i32,\n\tb: i32\n}\n",
+        "empty_lists": "fn f()\n{\n\tvar t = [];\n\tvar s = S { };\n\tg();\n}\nstruct S\n{\n}\n",
+    }.items():
+        cases.append(("corpus", "special/%s.pn" % name, text))
     for r in common.run_sharded(run_case, cases):
         if r.get("verdict") is None and "harness_error" not in r:
             run.merge_counters(r.get("cov"))
